@@ -200,6 +200,19 @@ def check_doc(doc, tmp, counters, via_cli=False, compress=False):
     counters["records_compared"] = counters.get("records_compared", 0) + len(a["records"])
     if diffs:
         viol.append({"mech": "record-diff", "msg": "; ".join(diffs[:6])})
+    # INFO keys at text level (pysam hides END from record.info, so the htslib differ cannot see it come or go)
+    from wv.pipeline import _info_keys
+
+    irecs = vcftext.parse(doc.text())[2]
+    if len(irecs) == len(recs):
+        for x, y in zip(irecs, recs):
+            ka, kb = _info_keys(x.get("info")), _info_keys(y.get("info"))
+            counters["info_key_sets_compared"] = counters.get("info_key_sets_compared", 0) + 1
+            if ka != kb:
+                symbolic = any(str(alt).startswith("<") for alt in x.get("alts") or [])
+                mech = "info-key-added:END-on-symbolic-alt" if (kb - ka == {"END"} and not (ka - kb) and symbolic) else "record-diff"
+                viol.append({"mech": mech, "msg": "%s:%s INFO keys %r -> %r (ALT %r)" % (x.get("chrom"), x.get("pos"), sorted(ka), sorted(kb), x.get("alts"))})
+                break
     # idempotence
     try:
         run_unphase(out1, out2)
